@@ -575,6 +575,12 @@ impl<'a> Sem<'a> {
                 7 => self.bang("!shl", &[Ty::Int, Ty::Int], depth),
                 _ => self.field_access(&Ty::Int, depth),
             },
+            Ty::Str if self.mc_depth > 0 && self.rng.chance(1, 6) && self.on("NAME") => {
+                // the implicit NAME of the enclosing defm (no declaration to point at)
+                let st = self.here();
+                self.w("NAME");
+                self.span("NAME", st);
+            }
             Ty::Str => match self.rng.below(if deep { 2 } else { 9 }) {
                 0 | 1 => {
                     let v = self.fresh("s");
@@ -1758,6 +1764,14 @@ impl<'a> Sem<'a> {
         if targs.is_empty() {
             self.p.feat.multiclass_without_targs = true;
         }
+        // parent multiclasses
+        if !self.mcs.is_empty() && self.rng.chance(1, 3) && self.on("multiclass-parent") {
+            let m = self.mcs[self.rng.below(self.mcs.len())].clone();
+            self.w(" : ");
+            let st = self.here();
+            self.mc_ref(&m);
+            self.span("multiclass-parent", st);
+        }
         self.w(" {");
         self.indent += 1;
         self.depth += 1;
@@ -1834,6 +1848,13 @@ impl<'a> Sem<'a> {
         self.declare(DeclKind::Defm, &dn, None, None, None);
         self.w(" : ");
         self.mc_ref(&m);
+        if self.mcs.len() >= 2 && self.rng.chance(1, 3) {
+            let m2 = self.mcs[self.rng.below(self.mcs.len())].clone();
+            if m2.name != m.name {
+                self.w(", ");
+                self.mc_ref(&m2);
+            }
+        }
         self.w(";");
     }
 
